@@ -257,8 +257,48 @@ def gen_order(rng, n, mode):
     return idx
 
 
+# the screen of the Examples in Props/C06.v (5 plates interleaved in storage order, plate 3 observed, plate 4 partly
+# observed, duplicate conditions across plates), with the selections those Examples state
+_AB, _AB2, _CB2 = [[1, 1], [2, 1]], [[1, 1], [2, 2]], [[0, 0], [2, 2]]
+EX_SCREEN = dict(arity=2, observed=[3], partial=[7],
+                 rows=[[2, 0, _AB], [0, 0, _AB], [1, 0, _AB], [0, 1, _AB], [2, 0, _AB2], [1, 1, _AB], [3, 2, _AB], [4, 0, _AB], [4, 2, _CB2]])
+EX_TABLE = [7.0, 1.0, -3.0, 1.0, -3.0, 1.0, 1.0, 1.0, 1.0]
+
+
+def _ex(order, n=3, policy="none", batch=(1,), **kw):
+    return dict(kind="pipeline", screen=EX_SCREEN, batch=list(batch), n=n, order=order, scorer="stub", table=EX_TABLE,
+                policy=policy, cli=False, seed=0, **kw)
+
+
+FIXED = [
+    (_ex([2, 0, 1]), [4]),                                                   # C06_example_select_tie_a
+    (_ex([0, 1, 2]), [2]),                                                   # C06_example_select_tie_b
+    (_ex([0, 1, 2, 1], policy="stubpol", keep=[0, 1, 3, 4, 5, 6, 7, 8]), [4]),  # C06_example_select_policy
+    (_ex([1, 0], n=2, policy="stubpol", keep=[]), []),                       # C06_example_none (policy allows nothing)
+    (_ex([1, 0], n=2, batch=(0, 1, 2, 4, 9)), []),                           # C06_example_none (no candidate)
+    (_ex([0, 2]), [4]),                                                      # C06_example_missing_chunk
+]
+
+
+def extra(tier):
+    """the vm_compute Examples of Props/C06.v replayed on the implementation"""
+    out = []
+    for i, (d, want) in enumerate(FIXED):
+        r = run(d)
+        got = r["impl"][2] if not isinstance(r["impl"], ImplError) else repr(r["impl"])
+        out.append(("props-example-%d" % i, got == want,
+                    "implementation selected %r, Props/C06.v example states %r" % (got, want)))
+    r = run(_ex([0, 1, 2, 3, 4], n=5))                                     # C06_example_chunks
+    want = [[[0, [1, 3]]], [[2, [0, 4, 5]]], [[4, [2, 5, 8]]], [], []]
+    got = repr(r["impl"]) if isinstance(r["impl"], ImplError) else [[[pid, [x[0] for x in rows]] for pid, rows in handed] for handed, _ in r["impl"][0]]
+    out.append(("props-example-chunks", got == want, "scorer was handed %r, Props/C06.v example states %r" % (got, want)))
+    return out
+
+
 def gen(rng, tier):
     big = tier != "quick"
+    for d, _ in FIXED:
+        yield d
     # np.array_split grid
     for ln in range(0, 13 if not big else 25):
         for n in range(1, 15 if not big else 30):
